@@ -77,6 +77,15 @@ fn c01_faulty(ctx: &VariantCtx) -> WorldOutcome {
     })
 }
 
+fn c10_faulty(ctx: &VariantCtx) -> WorldOutcome {
+    cluster_variant(ctx, |p, _| {
+        p.partition_permille = 1000;
+        p.isolate_bias = true;
+        p.min_ms = 16_000;
+        p.max_ms = 24_000;
+    })
+}
+
 fn c01_splitbrain(ctx: &VariantCtx) -> WorldOutcome {
     cluster_variant(ctx, |p, t| {
         p.byz_permille = 1000;
@@ -254,6 +263,9 @@ pub fn variants(property: &str, _tier: Tier) -> Vec<Variant> {
             Variant { name: "cluster-hostile", weight: 3, max_events: 400_000, run: c10_hostile },
             Variant { name: "cluster-hostile-then-live", weight: 1, max_events: 800_000, run: c10_hostile_then_live },
             Variant { name: "transport-receive", weight: 16, max_events: 100_000, run: c10_transport },
+            // no hostile inputs, but the fault schedules of C01 (partitions, crashes, stalls, Byzantine
+            // voters and leaders): a node task that dies there is a C10 failure just the same
+            Variant { name: "cluster-faulty", weight: 2, max_events: 400_000, run: c10_faulty },
         ],
         "C09" => vec![
             Variant { name: "forge", weight: 24, max_events: 100_000, run: c09_forge },
@@ -345,8 +357,8 @@ pub fn plan(property: &str, tier: Tier) -> Option<Plan> {
             "one case = one validator set (1..12, thorough 1..40 validators; equal / skewed / whale-under-threshold / exact-threshold / heavy-tail stakes, optionally one validator holding exactly j/k of the stake or a zero-stake validator) and one shipped committee strategy (IID stake-weighted, IID uniform, IID Turbine-work, decaying acceptance with max_samples 1..3, partition, Fait-Accompli 1 with partition and with stake-weighted fallback, Fait-Accompli 2) with k in 1..64 seats, shared by 1-3 caller threads that each draw 1-3 committees from their own seeded random source; the callers are real threads parked at every scheduling point (hook H7 ahead of each lock acquisition of the sampler's shared counters, start and end of every call) and released one at a time by the seeded scheduler; checked: construction does not panic, quorum_size = k, every committee has exactly k members of the set, no zero-stake member, >= floor(f*k) seats per validator under the Fait-Accompli samplers, <= ceil(max_samples) seats under decaying acceptance, and every committee equals what a private instance of the same strategy returns for the same validator set and random source (function of set and random source only, whatever the other callers do); distinct = (strategy, n, k, stake family, callers, context switches, scheduling sites)"),
         "C05" => (if q { 400 } else { 20_000 }, if q { 240 } else { 1800 }, "exploration",
             "one case = one seeded cluster execution (as C01: faults, partitions, <20% Byzantine equivocating voters and leaders, several blocks per slot); every vote each correct node broadcasts is replayed in broadcast order against the voting rules: never a slashable combination with its own earlier votes, finalize only after notarizing and only for a block that has a notarization certificate, fallback votes only after an initial vote and only once the stake they require had been voted anywhere, notar only for a block whose parent is the block it notarized in the preceding slot or (window-first slot) a certified, skip-connected parent; non-trivial as C01; distinct = per-node history fingerprint"),
-        "C10" => (if q { 960 } else { 60_000 }, if q { 300 } else { 1800 }, "exploration",
-            "three variants; (transport-receive, 4 of 5 runs) one script of 5-49 datagrams - valid messages of one of the five interface types interleaved with empty, truncated, trailing-byte, garbage, other-interface, absurd-prefix, all-ones and oversize datagrams, ending with a valid one - is fed to the crate's own receive loops, SimulatedNetwork::receive on its in-process core and UdpNetwork::receive on real loopback sockets (not schedule-controlled; only timing-independent facts are demanded): receive() must never fail or panic and must hand out exactly the decodable datagrams; (cluster variants, 1 of 5 runs) one case = one seeded cluster execution with hostile generators on all five interfaces interleaved with normal traffic (garbage and mutated consensus messages with absurd slots, forged votes/certificates, mutated shreds incl. odd sizes and flipped flags, repair requests with unknown senders/blocks/indices, unsolicited repair responses of every variant with proofs of length 0..33, oversize/empty/maximal transactions) plus a Byzantine leader signing malformed blocks (parent not earlier, first slice without parent, undecodable transactions, contradictory last flags, parent switched twice / to itself, slices after the last); checked: no panic located in the repository's sources in any task of a correct node, and (variant cluster-hostile-then-live) after the hostile phase every live correct node keeps finalizing within the C02 bound; non-trivial as C01; distinct = per-node history fingerprint"),
+        "C10" => (if q { 960 } else { 60_000 }, if q { 540 } else { 1800 }, "exploration",
+            "four variants; (cluster-faulty, 1 of 11 runs) the fault schedules of C01 without hostile inputs - a node task that panics under partitions, crashes, stalls or Byzantine validators is a C10 failure too; (transport-receive, 8 of 11 runs) one script of 5-49 datagrams - valid messages of one of the five interface types interleaved with empty, truncated, trailing-byte, garbage, other-interface, absurd-prefix, all-ones and oversize datagrams, ending with a valid one - is fed to the crate's own receive loops, SimulatedNetwork::receive on its in-process core and UdpNetwork::receive on real loopback sockets (not schedule-controlled; only timing-independent facts are demanded): receive() must never fail or panic and must hand out exactly the decodable datagrams; (cluster variants, 1 of 5 runs) one case = one seeded cluster execution with hostile generators on all five interfaces interleaved with normal traffic (garbage and mutated consensus messages with absurd slots, forged votes/certificates, mutated shreds incl. odd sizes and flipped flags, repair requests with unknown senders/blocks/indices, unsolicited repair responses of every variant with proofs of length 0..33, oversize/empty/maximal transactions) plus a Byzantine leader signing malformed blocks (parent not earlier, first slice without parent, undecodable transactions, contradictory last flags, parent switched twice / to itself, slices after the last); checked: no panic located in the repository's sources in any task of a correct node, and (variant cluster-hostile-then-live) after the hostile phase every live correct node keeps finalizing within the C02 bound; non-trivial as C01; distinct = per-node history fingerprint"),
         "C09" => (if q { 4_000 } else { 200_000 }, if q { 120 } else { 1500 }, "exploration",
             "two variants: (1) forge: valid votes and certificates (3-10 validators, drawn stakes, signer subsets just below/at/above 60%/80%, mixed certificates incl. a signer in both halves) are altered on the wire by chains of 1-3 structured mutations (kind, slot, hash, signer, signer set, bitmask length/word count, out-of-range signer bit, signature bytes, foreign signature, halves swapped/moved, inflated declared stake) and offered to ValidatedVote/ValidatedCert::try_new; the verdict must equal an independent one (signature bytes equal the honest signature/aggregation of exactly the named signers over exactly this kind/slot/hash, bitmask length = validator count, distinct stake >= threshold) and never panic; (2) cluster-forger: the same forgeries plus byte corruption are injected at real nodes while normal traffic flows and every certificate a correct node (re-)broadcasts must validate; non-trivial = at least one mutation applied; distinct = set of mutation classes x outcome counts"),
         "C19" => (if q { 6_000 } else { 300_000 }, if q { 120 } else { 1500 }, "exploration",
